@@ -16,8 +16,9 @@
      - the CONSTRUCTOR consumes it: `list` / `tuple` / `deque` / a list display take the results in order, the first
        raise wins; `set` / `frozenset` / `dict` / a dict display HASH every element (key) as soon as it is produced,
        so the TypeError of an unhashable element comes BEFORE the conversion of the next element is attempted
-       (`consume_hashing`).  Core's step converts all members first and hashes afterwards: the two agree except on
-       the inputs `late_hash` describes (see Props/RoutineAst.v, RA_*_refuted).
+       (`consume_hashing`).  Core's steps do the same (`Core.hashing`, `Core.elem_conv`); converting all members first
+       and hashing afterwards (`Proofs/RoutineAst.eager`, the earlier formulation of Core, Model/CoreLate.v) agrees
+       except on the inputs `late_hash` describes (RA_hash_order, Props/CoreHash.v).
    Definitions only. *)
 From Coq Require Import List Arith Bool PeanoNat String.
 Import ListNotations.
@@ -261,9 +262,9 @@ Definition dv_out (d : dv) : res pv :=
   end.
 Definition run (p : prog) (x : pv) : res pv := bind (interp p x) dv_out.
 
-(* ---- where "convert everything, then hash" (Core) and "hash as produced" (the code) part ways:
+(* ---- where "convert everything, then hash" (the earlier Core) and "hash as produced" (the code, Core) part ways:
         an element that converted to an unhashable object, followed by a member whose conversion fails with
-        something else than TypeError (the code raises the TypeError, Core reports the later failure) ---- *)
+        something else than TypeError (hash-as-produced raises the TypeError, the other reports the later failure) ---- *)
 Fixpoint late_hash {A} (key : A -> pv) (seen : bool) (l : list (res A)) : bool :=
   match l with
   | [] => false
@@ -353,32 +354,13 @@ Definition req_wf (cd : classdef) : bool :=
   | _ => true
   end.
 
-Definition after_load_values (x : pv) (f : list pv -> bool) : bool :=
-  match load rt x with
-  | Ok d => match itervalues rt d with Ok vs => f vs | _ => true end
-  | _ => true
-  end.
-Definition after_items (r : res (list (pv * pv))) (f : list (pv * pv) -> bool) : bool :=
-  match r with Ok kvs => f kvs | _ => true end.
-Definition after_load_items (x : pv) (f : list (pv * pv) -> bool) : bool :=
-  match load rt x with Ok d => after_items (iteritems rt E d) f | _ => true end.
-
-(* inputs on which Core's unmarshal step at t is the code's: no unhashable member precedes a member failing
-   with another exception kind (sets, mappings); the TypedDict is well-formed (structured classes) *)
-Definition guard_u (sem : ty -> pv -> res pv) (t : ty) (x : pv) : bool :=
+(* inputs on which Core's unmarshal step at t is the code's: the TypedDict is well-formed (structured classes).
+   (Sets and mappings needed a hashing guard while Core converted every member before hashing any; Core now hashes
+   as produced -- `Core.hashing` -- and the steps agree on every input.) *)
+Definition guard_u (t : ty) : bool :=
   match t with
-  | TSeq KSet a | TSeq KFrozenset a =>
-      after_load_values x (fun vs => negb (late_hash rt (fun v => v) false (map (sem a) vs)))
-  | TMap _ kt vt =>
-      after_load_items x (fun kvs => negb (late_hash rt fst false (map (kv_apply sem kt vt) kvs)))
   | TName _ | TRef _ | TAliasStr _ _ =>
       match class_of E t with Some (_, cd) => req_wf cd | None => true end
-  | _ => true
-  end.
-Definition guard_m (sem : ty -> pv -> res pv) (t : ty) (x : pv) : bool :=
-  match t with
-  | TMap _ kt vt =>
-      after_items (iteritems rt E x) (fun kvs => negb (late_hash rt fst false (map (kv_apply sem kt vt) kvs)))
   | _ => true
   end.
 End Guards.
